@@ -135,11 +135,13 @@ CHECKS = {
             'selected; ray_quad returns the smallest non-negative real root or -1 iff none exists; ray_sphere hit points lie on the sphere; ray_plane hit '
             'points lie in the plane, inside the rendered rectangle, only for rays facing the front side, and an unbounded plane is always hit from above; '
             'ray_eliminate applies the documented filter; ray_quad stores both roots and every real root is one of them; ray_capsule (normal == NULL): '
-            'the reported point lies on the capsule surface (side between the caps or the proper half of a cap sphere), per path; mju_rayGeom dispatches each '
-            'geom type to its own routine with the right arguments (plane / sphere / capsule clauses carried through, unknown types are an error).',
+            'the reported point lies on the capsule surface (side between the caps or the proper half of a cap sphere), per path; likewise ray_ellipsoid (on the '
+            'ellipsoid), ray_cylinder (round side between the caps, or a flat cap within the radius) and ray_box (on a face, inside its rectangle; 5000 paths); '
+            'ray_map is the frame change mat\'(pnt-pos), mat\'vec; mju_rayGeom dispatches each geom type to its own routine with the right arguments (all six '
+            'surface clauses carried through, unknown types are an error).',
             'Trusted: VC generator, clang, z3/cvc5. Assumed: per-geom ray routines are pure functions of the geom index; ngeom < 2^27; '
-            'normal == NULL in mj_ray and ray_capsule; quadratic/sphere/plane/capsule over the reals. Not covered (listed): nearest / no-hit for the capsule, '
-            'the other geom ray routines, mj_multiRay, BVH rays.',
+            'normal == NULL in mj_ray and the shape routines; all geometry over the reals. Not covered (listed): nearest / no-hit for capsule, ellipsoid, '
+            'cylinder and box, mesh / hfield / SDF rays, mj_multiRay, BVH rays.',
             'contracts + inductive loop invariant with ghost functions, z3 QF_FP/LIA+quantifiers, NRA'),
     'C31': ('DESIGN.md section 4 / C31',
             'Deductive proof on the real engine_io.c (all sizes, all buffer contents symbolic): (1) mj_validateReferences returning NULL '
